@@ -1,4 +1,5 @@
 CONSTANTS BigSizes = {4096, 8193, 65537}
 TripleStride = 5
+HugeSizes = {}
 INIT GenInit
 NEXT GenNext
